@@ -179,7 +179,7 @@ class TypeGen:
         if x < 0.93:
             name = self.fresh("NTy")
             inner = self.type(depth - 1)
-            if tast.strip(inner)[0] in ("opt", "union", "any", "none", "lit", "td"):
+            if tast.strip(inner)[0] in ("opt", "union", "any", "none", "lit", "td", "tv"):
                 return inner   # NewType needs a class-like supertype
             self.fam.add({"k": "newtype", "name": name, "t": inner})
             return ("newtype", name, inner)
